@@ -14,6 +14,7 @@ import (
 
 	jsonpatch "github.com/evanphx/json-patch"
 
+	"github.com/trustbloc/sidetree-go/pkg/canonicalizer"
 	"github.com/trustbloc/sidetree-go/pkg/document"
 	logfields "github.com/trustbloc/sidetree-go/pkg/internal/log"
 	"github.com/trustbloc/sidetree-go/pkg/log"
@@ -85,7 +86,9 @@ func applyPatch(doc document.Document, p patch.Patch) (document.Document, error)
 func applyJSON(doc document.Document, entry interface{}) (document.Document, error) {
 	logger.Debug("Applying JSON patch", logfields.WithPatch(entry))
 
-	bytes, err := json.Marshal(entry)
+	// The JSON patch library compares numbers by their text (operation 'test'): both the operations and the document are
+	// handed over in canonical form so that numbers that are equal (e.g. 0 and -0) are spelled the same.
+	bytes, err := canonicalizer.MarshalCanonical(entry)
 	if err != nil {
 		return nil, err
 	}
@@ -97,7 +100,7 @@ func applyJSON(doc document.Document, entry interface{}) (document.Document, err
 		return nil, err
 	}
 
-	docBytes, err := doc.Bytes()
+	docBytes, err := canonicalizer.MarshalCanonical(doc)
 	if err != nil {
 		return nil, err
 	}
